@@ -76,9 +76,19 @@ static void vsx_free_scan(const char *path, const char *scenario, uint64_t *all,
     FILE *f = fopen(path, "r");
     if (!f) return;
     char line[1024];
-    int in_report = 0, want_frame0 = 0, lib_hit = 0;
+    int in_report = 0, want_frame0 = 0, lib_hit = 0, mismatch_seen = 0;
     char first_lib[300] = "";
     while (fgets(line, sizeof(line), f)) {
+        if (strncmp(line, "TWIN-MISMATCH", 13) == 0) { /* a twin's own note: a call on thread-private objects gave a result it does not give alone */
+            if (!mismatch_seen) {
+                mismatch_seen = 1;
+                (*lib)++;
+                size_t ll = strlen(line);
+                if (ll && line[ll - 1] == '\n') line[ll - 1] = 0;
+                v_out("INFO ASSUMPTION-BROKEN results depend on what another thread does with objects of its own during %s: %.200s", scenario, line + 14);
+            }
+            continue;
+        }
         if (strstr(line, "WARNING: ThreadSanitizer:")) {
             in_report = strstr(line, "data race") != NULL;
             if (in_report) (*all)++;
